@@ -5,6 +5,7 @@ Nothing here evaluates the property."""
 import os
 import re
 import sys
+import time
 import traceback
 import warnings
 
@@ -100,6 +101,7 @@ def run_one(item):
   compiles, cline, oexc = oracle(src)
   del _events[:]
   _depth[0] = 0
+  t0 = time.time()
   try:
     r = pyt.analyze_file(src, check=(mode == "check"), **(item.get("opts") or {}))
   except BaseException as e:  # pylint: disable=broad-except
@@ -107,15 +109,16 @@ def run_one(item):
     # is an Exception) also counts as escaped
     r = {"outcome": "crash", "errors": [], "pyi": "",
          "exc": "%s: %s\n%s" % (type(e).__name__, e, traceback.format_exc()[-3000:])}
+  secs = time.time() - t0
   events = [list(e) for e in _events]
   del _events[:]
   errs = [[e[0], e[1] if isinstance(e[1], int) and not isinstance(e[1], bool) else -1] for e in r["errors"]]
   rec = {"label": label, "mode": mode, "nlines": len(src.split("\n")), "compiles": compiles,
          "cline": cline, "skip": bool(_SKIP_RE.search(src)), "events": events,
          "crashed": r["outcome"] == "crash", "errs": errs,
-         "oracle_exc": oexc, "pyi_len": len(r.get("pyi") or ""),
+         "secs": round(secs, 3), "oracle_exc": oexc, "pyi_len": len(r.get("pyi") or ""),
          # oracle-side fact for the attribution of a known defect (Outcome!Attribution)
-         "anntrail": c15_fam.anntrail(src) if compiles else []}
+         "anntrail": c15_fam.anntrail(src)}
   if rec["crashed"]:
     exc = r["exc"]
     rec["exc_type"] = exc.split(":", 1)[0]
